@@ -6,7 +6,7 @@
 // YAML file, loaded with config.GetConfig and applied with loadConfig to the real BGP server.
 //
 // Input tokens (one case = a daemon life):   cfg <k=v>* (grp <k=v>* (nb <k=v>*)*)* cfg ...
-//   cfg level:  as= rid= pol=<name>:<content> ri=<name>:<rd> nobgp
+//   cfg level:  as= rid= pol=<name>:<content> ri=<name>:<rd> nobgp isis
 //   grp / nb :  loc=<4|6>.<id> ttl= auth= pas= las= hold= imp=a,b exp=a,b rsc= rrc= pasv= cl=
 //               v4=<af> v6=<af> ri=<name>      nb only: addr=<4|6>.<id> dis=1 mp4=1
 //   <af> = n<nhx>[a<recv>[s<multipath>.<count>]]
@@ -18,6 +18,7 @@ package main
 import (
 	"bufio"
 	"bytes"
+	"flag"
 	"fmt"
 	"os"
 	"os/exec"
@@ -91,6 +92,7 @@ type config struct {
 	pols   []policy
 	ris    []rinst
 	nobgp  bool
+	isis   bool // an isis section (one NET, no interfaces)
 	groups []*group
 }
 
@@ -186,6 +188,9 @@ func (c *config) toks() []string {
 	}
 	for _, r := range c.ris {
 		t = append(t, fmt.Sprintf("ri=%d:%d", r.name, r.rd))
+	}
+	if c.isis {
+		t = append(t, "isis")
 	}
 	if c.nobgp {
 		t = append(t, "nobgp")
@@ -328,6 +333,12 @@ func parseSeq(in string) ([]*config, error) {
 				return nil, fmt.Errorf("nobgp outside cfg")
 			}
 			cur.nobgp = true
+			continue
+		case "isis":
+			if cur == nil {
+				return nil, fmt.Errorf("isis outside cfg")
+			}
+			cur.isis = true
 			continue
 		case "grp":
 			if cur == nil {
@@ -518,10 +529,18 @@ func (c *config) yaml() string {
 			fmt.Fprintf(b, "  - name: %q\n    route_distinguisher: \"0:%d\"\n", riName(r.name), r.rd)
 		}
 	}
+	isis := "  isis:\n    NETs: [\"49.0001.0100.0000.0001.00\"]\n    lsp_lifetime: 1800\n"
 	if c.nobgp {
+		if c.isis {
+			b.WriteString("protocols:\n" + isis)
+		}
 		return b.String()
 	}
-	b.WriteString("protocols:\n  bgp:\n")
+	b.WriteString("protocols:\n")
+	if c.isis {
+		b.WriteString(isis)
+	}
+	b.WriteString("  bgp:\n")
 	if len(c.groups) == 0 {
 		b.WriteString("    groups: []\n")
 		return b.String()
@@ -661,7 +680,7 @@ func genGroup(r *hx.RNG) *group {
 }
 
 func genConfig(r *hx.RNG) *config {
-	c := &config{as: 65100, rid: 1}
+	c := &config{as: 65100, rid: 1, isis: isisAlways || r.Chance(12)}
 	if r.Chance(4) {
 		c.as = 0
 	}
@@ -729,7 +748,7 @@ func cloneCommon(c common) common {
 }
 
 func cloneConfig(c *config) *config {
-	d := &config{as: c.as, rid: c.rid, nobgp: c.nobgp}
+	d := &config{as: c.as, rid: c.rid, nobgp: c.nobgp, isis: c.isis}
 	d.pols = append([]policy(nil), c.pols...)
 	d.ris = append([]rinst(nil), c.ris...)
 	for _, g := range c.groups {
@@ -953,8 +972,13 @@ type step struct {
 	status   string
 	restarts int
 	zombies  int
+	isisSrv  int // an IS-IS server exists
+	isisSets int // sets of LSDB routines started on it
 	peers    []string
 }
+
+// isisAlways: every generated configuration has an isis section (shared stage for C32)
+var isisAlways bool
 
 var (
 	reAccept = regexp.MustCompile(`\{from\(10\.(\d+)\.0\.0/16:orlonger:0:0\)then\(accept\)\}`)
@@ -1020,6 +1044,10 @@ func runHook(exe, dir string, chunk int, ids []string, runs map[string][]*config
 			if s := res[cur]; len(s) > 0 {
 				s[len(s)-1].restarts, _ = strconv.Atoi(l[2:])
 			}
+		case strings.HasPrefix(l, "I "):
+			if s := res[cur]; len(s) > 0 {
+				fmt.Sscanf(l[2:], "%d %d", &s[len(s)-1].isisSrv, &s[len(s)-1].isisSets)
+			}
 		case strings.HasPrefix(l, "Z "):
 			if s := res[cur]; len(s) > 0 {
 				s[len(s)-1].zombies, _ = strconv.Atoi(l[2:])
@@ -1046,7 +1074,7 @@ func runHook(exe, dir string, chunk int, ids []string, runs map[string][]*config
 }
 
 func (s step) obs() string {
-	return fmt.Sprintf("%s R%d Z%d %s", s.status, s.restarts, s.zombies, strings.Join(s.peers, " ; "))
+	return fmt.Sprintf("%s R%d Z%d I%d/%d %s", s.status, s.restarts, s.zombies, s.isisSrv, s.isisSets, strings.Join(s.peers, " ; "))
 }
 
 // ---------------------------------------------------------------- spec oracle
@@ -1083,6 +1111,13 @@ func firstDiff(a, b string) (field, detail string) {
 
 // oracle: the property's statement on the implementation's observations
 func oracle(seq, fresh []step, n int) (sig, detail string) {
+	// C32/C36: a reload must leave the IS-IS server with the one set of LSDB routines a fresh start
+	// gives it (every further set ages all LSPs once more per second)
+	for i, s := range append(append([]step{}, seq...), fresh...) {
+		if s.status != "panic" && s.isisSets > 1 {
+			return "isis-routines-duplicated", fmt.Sprintf("after step %d: %d sets of LSDB routines (lifetime decrementer, senders, LSP updater) run on one IS-IS server: LSPs age %d s per second", i, s.isisSets, s.isisSets)
+		}
+	}
 	for i, s := range seq {
 		if s.zombies != 0 {
 			return "removed-session-still-running", fmt.Sprintf("after step %d: %d FSM(s) of removed peers still running", i, s.zombies)
@@ -1145,7 +1180,9 @@ type kase struct {
 }
 
 func main() {
+	isisProp := flag.String("isisprop", "", "shared stage: every configuration has an isis section; only isis-routines-duplicated is reported, tagged prop=<id>")
 	cfg := hx.Parse()
+	isisAlways = *isisProp != ""
 	tr := hx.NewTrace(cfg.Out)
 	repo := os.Getenv("VERIF_REPO")
 	if repo == "" {
@@ -1258,8 +1295,13 @@ func main() {
 				tr.Count("fresh_" + fresh[0].status)
 			}
 			if sig, detail := oracle(seq, fresh, n); sig != "" {
-				hx.Violation(k.id, sig, detail)
-				nviol++
+				if *isisProp == "" {
+					hx.Violation(k.id, sig, detail)
+					nviol++
+				} else if sig == "isis-routines-duplicated" {
+					fmt.Printf("SPEC-VIOLATION prop=%s case=%s sig=%s %s | input: %s\n", *isisProp, k.id, sig, detail, seqToks(k.seq))
+					nviol++
+				}
 			}
 		}
 	}
